@@ -153,18 +153,118 @@ theorem pure_pred (v : Variant) (kinds : List EM) (nT nS : Nat) : Pure (predSamp
   · exact hl
   · exact pure_withRng hl
 
+/-! population models without truncated-Gaussian sub-models do not touch the global generator -/
+
+def SubModel.noTrunc (m : SubModel) : Bool := m.elem != .truncGauss
+
+def Pop.noTrunc : Pop → Bool
+  | .single m => m.noTrunc
+  | .composed ms => ms.all SubModel.noTrunc
+
+def PredSpec.noTrunc : PredSpec → Bool
+  | .indiv _ => true
+  | .pop p _ => p.noTrunc
+
+theorem pure_elem (e : Elem) (he : e ≠ .truncGauss) (nDim n : Nat) : Pure (elemSample e nDim n) := by
+  cases e
+  · exact pure_withRng (pure_drawS _ _)
+  · exact pure_withRng (pure_drawS _ _)
+  · intro sd w h; exact ⟨rfl, h⟩
+  · exact pure_withRng (pure_drawS _ _)
+  · exact absurd rfl he
+
+theorem pure_sub (m : SubModel) (hm : m.noTrunc = true) (n : Nat) : Pure (subSample m n) := by
+  have he : m.elem ≠ .truncGauss := by simpa [SubModel.noTrunc] using hm
+  unfold subSample
+  split
+  · exact pure_withRng (pure_loop (fun i => pure_mapCells _ (pure_elem m.elem he m.nDim 1)) _)
+  · exact pure_elem m.elem he m.nDim n
+
+theorem mem_withOffsets {ms : List SubModel} : ∀ {off : Nat} {mo : SubModel × Nat},
+    mo ∈ withOffsets off ms → mo.1 ∈ ms := by
+  induction ms with
+  | nil => intro off mo h; simp [withOffsets] at h
+  | cons m ms ih =>
+    intro off mo h
+    simp only [withOffsets, List.mem_cons] at h
+    rcases h with rfl | h
+    · exact List.mem_cons_self
+    · exact List.mem_cons_of_mem _ (ih h)
+
+theorem pure_loop_mem {ι : Type} {body : ι → Sampler} (xs : List ι) (h : ∀ x ∈ xs, Pure (body x)) :
+    Pure (loopS body xs) := by
+  induction xs with
+  | nil => exact pure_skip
+  | cons x xs ih =>
+    exact pure_seq (h x List.mem_cons_self) (ih (fun y hy => h y (List.mem_cons_of_mem _ hy)))
+
+theorem pure_pop (p : Pop) (hp : p.noTrunc = true) (n : Nat) : Pure (popSample p n) := by
+  cases p with
+  | single m => exact pure_sub m hp n
+  | composed ms =>
+    simp only [Pop.noTrunc, List.all_eq_true] at hp
+    exact pure_withRng (pure_loop_mem _ (fun mo hmo => pure_mapCells _ (pure_sub mo.1 (hp _ (mem_withOffsets hmo)) n)))
+
+theorem pure_popPred (v : Variant) (p : Pop) (hp : p.noTrunc = true) (kinds : List EM) (nT n : Nat) :
+    Pure (popPredSample v p kinds nT n) := by
+  have hL : Pure (loopS (fun i => mapCells (fun c => { c with unit := i }) (predSample v kinds nT 1))
+      (List.range n)) := pure_loop (fun i => pure_mapCells _ (pure_pred v kinds nT 1)) _
+  intro sd w hsd
+  have hcore : ∀ sd' w', sd' ≠ .none → (popPredCore v p kinds nT n sd' w').2 = w' := by
+    intro sd' w' h'
+    obtain ⟨h1, h2⟩ := pure_pop p hp n sd' w' h'
+    obtain ⟨h3, _⟩ := hL _ (popSample p n sd' w').2 h2
+    simp only [popPredCore]; rw [h3, h1]
+  cases sd with
+  | none => exact absurd rfl hsd
+  | int s => exact ⟨by simp only [popPredSample, convertSeed, defaultRng]; exact hcore _ _ (by simp),
+      by simp [popPredSample, finalSeed]⟩
+  | gen g =>
+    refine ⟨by simp only [popPredSample, convertSeed, defaultRng]; exact hcore _ _ (by simp), ?_⟩
+    simp only [popPredSample, convertSeed, defaultRng]
+    cases (popPredCore v p kinds nT n (.gen g) w).1.2 <;> simp [finalSeed]
+
+/-- what the prior predictive loop needs from the wrapped predictive model, run with an integer seed -/
+structure InnerOK (P : Sampler) : Prop where
+  pure : ∀ s' w, (P (.int s') w).2 = w
+  family : ∀ s' w, ∀ c ∈ (P (.int s') w).1.1.cells, ∀ r ∈ cellReads c,
+    r.stream = .seeded s' ∨ ∃ j, r.stream = .legacyDerived (.seeded s') j
+  indep : ∀ s' w, Indep (P (.int s') w).1.1.cells
+
+theorem innerOK_anyPred (v : Variant) (hv : v.sharedSeed = false) (spec : PredSpec) (hs : spec.noTrunc = true)
+    (nT n : Nat) : InnerOK (anyPred v spec nT n) := by
+  cases spec with
+  | indiv kinds =>
+    refine ⟨fun s' w => (pure_pred v kinds nT n (.int s') w (by simp)).1, ?_,
+      fun s' w => indep_pred v kinds nT n _ _ (fun h => by rw [hv] at h; cases h)⟩
+    intro s' w cell hcell r hr
+    simp only [anyPred, predSample, hv, Bool.false_eq_true, if_false, withRng, defaultRng] at hcell
+    obtain ⟨t, ht, _, _⟩ := (good_predLoop (.seeded s') _ nT n).within (.gen ⟨.seeded s', 0⟩) _ ⟨_, rfl, rfl⟩
+      cell hcell r hr
+    exact stream_of_tokG ht
+  | pop p kinds =>
+    refine ⟨fun s' w => (pure_popPred v p hs kinds nT n (.int s') w (by simp)).1, ?_,
+      fun s' w => indep_popPred v p kinds nT n _ _⟩
+    intro s' w cell hcell r hr
+    have hg := good_popPredCore (M := genM (.seeded s')) v p kinds nT n (good_pop _ p n) (good_pred _ v kinds nT 1)
+    simp only [anyPred, popPredSample, convertSeed, defaultRng] at hcell
+    obtain ⟨t, ht, _, _⟩ := hg.within (.gen ⟨.seeded s', 0⟩) _ ⟨_, rfl, rfl⟩ cell hcell r hr
+    exact stream_of_tokG ht
+
 /-- what is known about the entries of iterations `ks` started with the global generator at
-    `⟨legacySeeded s, c⟩` -/
+    `⟨legacySeeded s, c⟩`: every read is a row of the prior's draws (call `≥ c` of the seeded global
+    generator, parameters only) or belongs to the stream family of seed `s + unit + 1` -/
 structure PriorInv (s : Int) (c : Nat) (ks : List Nat) (cs : List Cell) : Prop where
   indep : Indep cs
   unit : ∀ cell ∈ cs, cell.unit ∈ ks
-  par : ∀ cell ∈ cs, ∀ r ∈ cell.par, ∃ j, c ≤ j ∧ r = ⟨.legacySeeded s, j, 0⟩
+  par : ∀ cell ∈ cs, ∀ r ∈ cell.par, (∃ j, c ≤ j ∧ r = ⟨.legacySeeded s, j, 0⟩) ∨
+    (r.stream = .seeded (s + (cell.unit + 1)) ∨ ∃ j, r.stream = .legacyDerived (.seeded (s + (cell.unit + 1))) j)
   noise : ∀ cell ∈ cs, ∀ r ∈ cell.noise,
     r.stream = .seeded (s + (cell.unit + 1)) ∨ ∃ j, r.stream = .legacyDerived (.seeded (s + (cell.unit + 1))) j
 
-theorem priorLoop_inv (v : Variant) (hv : v.sharedSeed = false) (kinds : List EM) (nT n : Nat) (s : Int)
+theorem priorLoop_inv (v : Variant) (spec : PredSpec) (nT n : Nat) (hI : InnerOK (anyPred v spec nT n)) (s : Int)
     (ks : List Nat) (hks : ks.Nodup) : ∀ (c : Nat) (w : World), w.glob = ⟨.legacySeeded s, c⟩ →
-    PriorInv s c ks (priorLoop v (.indiv kinds) nT n (some s) ks w).1.cells := by
+    PriorInv s c ks (priorLoop v spec nT n (some s) ks w).1.cells := by
   induction ks with
   | nil =>
     intro c w _
@@ -173,29 +273,26 @@ theorem priorLoop_inv (v : Variant) (hv : v.sharedSeed = false) (kinds : List EM
   | cons k ks ih =>
     intro c w hw
     obtain ⟨hk, hks'⟩ := List.nodup_cons.mp hks
-    -- the inner call: PredictiveModel.sample with the integer seed s + k + 1
     have hwc : (globCall .prior 1 w).2.glob = ⟨.legacySeeded s, c + 1⟩ := by simp [globCall, hw]
-    have hpure := pure_pred v kinds nT n (.int (s + (k + 1))) (globCall .prior 1 w).2 (by simp)
-    have hgood : Good (genM (.seeded (s + (k + 1)))) (loopS (fun ko : EM × Nat =>
-        mapCells (fun c => { c with out := ko.2 }) (errSample ko.1 nT n)) kinds.zipIdx) :=
-      good_predLoop _ _ nT n
-    have hinner : ∀ cell ∈ (anyPred v (.indiv kinds) nT n (.int (s + (k + 1))) (globCall .prior 1 w).2).1.1.cells,
-        ∀ r ∈ cellReads cell, r.stream = .seeded (s + (k + 1)) ∨
-          ∃ j, r.stream = .legacyDerived (.seeded (s + (k + 1))) j := by
-      intro cell hcell r hr
-      simp only [anyPred, predSample, hv, Bool.false_eq_true, if_false, withRng, defaultRng] at hcell
-      obtain ⟨t, ht, _, _⟩ := hgood.within (.gen ⟨.seeded (s + (k + 1)), 0⟩) _ ⟨_, rfl, rfl⟩ cell hcell r hr
-      exact stream_of_tokG ht
-    have hindep : Indep (anyPred v (.indiv kinds) nT n (.int (s + (k + 1))) (globCall .prior 1 w).2).1.1.cells :=
-      indep_pred v kinds nT n _ _ (fun h => by rw [hv] at h; cases h)
-    have hrest := ih hks' (c + 1) (anyPred v (.indiv kinds) nT n (.int (s + (k + 1))) (globCall .prior 1 w).2).2
-      (by simp only [anyPred]; rw [hpure.1]; exact hwc)
-    -- the head entries
-    have hrow : ∀ cell ∈ (anyPred v (.indiv kinds) nT n (.int (s + (k + 1))) (globCall .prior 1 w).2).1.1.cells,
+    have hinner := hI.family (s + (k + 1)) (globCall .prior 1 w).2
+    have hindep := hI.indep (s + (k + 1)) (globCall .prior 1 w).2
+    have hrest := ih hks' (c + 1) (anyPred v spec nT n (.int (s + (k + 1))) (globCall .prior 1 w).2).2
+      (by rw [hI.pure]; exact hwc)
+    have hrow : ∀ cell ∈ (anyPred v spec nT n (.int (s + (k + 1))) (globCall .prior 1 w).2).1.1.cells,
         (⟨w.glob.stream, w.glob.ctr, 0⟩ : Read) ∉ cell.noise := by
       intro cell hcell hmem
       rcases hinner cell hcell _ (List.mem_append_right _ hmem) with h | ⟨j, h⟩ <;> simp [hw] at h
     have hhead := indep_keepFirst k ⟨w.glob.stream, w.glob.ctr, 0⟩ _ hindep hrow
+    -- reads of a head entry / of a later entry
+    have head_cases : ∀ x' ∈ (anyPred v spec nT n (.int (s + (k + 1))) (globCall .prior 1 w).2).1.1.cells,
+        ∀ r, r ∈ cellReads ({ x' with unit := k, par := [⟨w.glob.stream, w.glob.ctr, 0⟩] ++ x'.par } : Cell) →
+        r = ⟨.legacySeeded s, c, 0⟩ ∨
+          (r.stream = .seeded (s + (k + 1)) ∨ ∃ j, r.stream = .legacyDerived (.seeded (s + (k + 1))) j) := by
+      intro x' hx' r hr
+      simp only [cellReads, List.singleton_append, List.cons_append, List.mem_cons] at hr
+      rcases hr with h | h
+      · left; rw [h, hw]
+      · right; exact hinner x' hx' r h
     simp only [priorLoop, Out.append]
     refine ⟨?_, ?_, ?_, ?_⟩
     · refine indep_append hhead hrest.indep ?_
@@ -203,22 +300,15 @@ theorem priorLoop_inv (v : Variant) (hv : v.sharedSeed = false) (kinds : List EM
       obtain ⟨x', hx', _, rfl⟩ := (mem_keepFirst _ _ _ _).mp hx
       have hyu := hrest.unit y hy
       have hne : y.unit ≠ k := fun h => hk (h ▸ hyu)
-      -- reads of y: a later row, or noise of another seed
       have hy_cases : (∃ j, c + 1 ≤ j ∧ r = ⟨.legacySeeded s, j, 0⟩) ∨
           (r.stream = .seeded (s + (y.unit + 1)) ∨ ∃ j, r.stream = .legacyDerived (.seeded (s + (y.unit + 1))) j) := by
         simp only [cellReads, List.mem_append] at hry
         rcases hry with h | h
-        · left; exact hrest.par y hy r h
+        · exact hrest.par y hy r h
         · right; exact hrest.noise y hy r h
-      simp only [cellReads, List.singleton_append, List.cons_append, List.mem_cons] at hrx
-      have hx_cases : r = ⟨.legacySeeded s, c, 0⟩ ∨
-          (r.stream = .seeded (s + (k + 1)) ∨ ∃ j, r.stream = .legacyDerived (.seeded (s + (k + 1))) j) := by
-        rcases hrx with h | h
-        · left; rw [h, hw]
-        · right; exact hinner x' hx' r h
       have hseed : s + ((y.unit : Int) + 1) ≠ s + ((k : Int) + 1) := by
         intro h; apply hne; omega
-      rcases hx_cases with h1 | h1 | ⟨j1, h1⟩ <;> rcases hy_cases with ⟨j2, hj2, h2⟩ | h2 | ⟨j2, h2⟩
+      rcases head_cases x' hx' r hrx with h1 | h1 | ⟨j1, h1⟩ <;> rcases hy_cases with ⟨j2, hj2, h2⟩ | h2 | ⟨j2, h2⟩
       · rw [h1] at h2; simp only [Read.mk.injEq, true_and] at h2; omega
       · rw [h1] at h2; simp at h2
       · rw [h1] at h2; simp at h2
@@ -238,15 +328,12 @@ theorem priorLoop_inv (v : Variant) (hv : v.sharedSeed = false) (kinds : List EM
     · intro cell hcell r hr
       rcases List.mem_append.mp hcell with h | h
       · obtain ⟨x', hx', _, rfl⟩ := (mem_keepFirst _ _ _ _).mp h
-        simp only [List.singleton_append, List.mem_cons] at hr
-        rcases hr with rfl | hr
-        · exact ⟨c, Nat.le_refl _, by rw [hw]⟩
-        · -- error-model entries carry no parameter reads
-          have := parNil_pred v kinds nT n _ _ x' hx'
-          rw [this] at hr
-          simp at hr
-      · obtain ⟨j, hj, hr'⟩ := hrest.par cell h r hr
-        exact ⟨j, by omega, hr'⟩
+        rcases head_cases x' hx' r (List.mem_append_left _ hr) with h1 | h1
+        · left; exact ⟨c, Nat.le_refl _, h1⟩
+        · right; exact h1
+      · rcases hrest.par cell h r hr with ⟨j, hj, hr'⟩ | h1
+        · left; exact ⟨j, by omega, hr'⟩
+        · right; exact h1
     · intro cell hcell r hr
       rcases List.mem_append.mp hcell with h | h
       · obtain ⟨x', hx', _, rfl⟩ := (mem_keepFirst _ _ _ _).mp h
